@@ -213,6 +213,8 @@ def bad_values(draw, t):
     if k == "STRINGI":
         return draw(st.sampled_from([([["x", "STRING", "eng", 70000]], "charset-range"),
                                      ([[5, "STRING", "eng", 4]], "string-int"), ([["x", "STRING", "Āng", 4]], "lang-nonascii"),
+                                     ([["x", "STRING", "en", 4]], "lang-length"), ([["x", "STRING", "engl", 4]], "lang-length"), ([["x", "STRING", "", 4]], "lang-length"),
+                                     ([["x", "LOGIX_STRING", "eng", 4]], "string-type"), ([[5, "DINT", "eng", 4]], "string-type"),
                                      ([["Ā", "SHORT_STRING", "eng", 4]], "unencodable")])) if True else None
     if k == "array":
         ln, el = t["len"], t["el"]
@@ -443,7 +445,10 @@ def check_zero_width(zi, buf):
 _BIG = {"__pow10__": 5000}
 PARAM_CASES = ([("array.too-few", el, ln, n) for el in ("SINT", "DINT", "REAL", "STRING") for ln in (1, 2, 255, 65536, 2 ** 31, 2 ** 64, _BIG) for n in (0, 1, 3) if n < (ln if isinstance(ln, int) else 9)]
                + [("array.too-few.length-arg", el, ln, n) for el in ("SINT", "DINT") for ln in (2, 65536, 2 ** 64, _BIG) for n in (0, 1)]
-               + [("stringn.char-size", None, cs, 0) for cs in (0, 3, 5, 8, -1, 256, 65536, 2 ** 64, _BIG, None, "1", "utf-8")])
+               + [("stringn.char-size", None, cs, 0) for cs in (0, 3, 5, 8, -1, 256, 65536, 2 ** 64, _BIG, None, "1", "utf-8")]
+               + [("array.short.decode", el, ln, n) for el in ("SINT", "DINT") for ln in (2, 65536, 2 ** 64, _BIG) for n in (0, 1)]
+               + [("array.short.decode.length-arg", el, ln, n) for el in ("SINT", "DINT") for ln in (2, 65536, 2 ** 64, _BIG) for n in (0, 1)]
+               + [("array.nested.too-few", "DINT", ln, 1) for ln in (2, 2 ** 64, _BIG)])
 
 
 def check_param_case(ci):
@@ -454,6 +459,14 @@ def check_param_case(ci):
     try:
         if kind == "stringn.char-size":
             out = cip.STRINGN.encode("abc", par_v)
+        elif kind.startswith("array.short.decode"):
+            # a buffer that holds n elements (n < length) and then three bytes of a further one: short of the fixed length
+            elt = getattr(cip, el)
+            buf = b"\x01\x00\x00\x00" * n if el == "DINT" else b"\x01" * n
+            buf += b"\x00\x00\x00" if el == "DINT" else b""
+            out = cip.Array(par_v, elt).decode(buf) if kind == "array.short.decode" else cip.Array(None, elt).decode(buf, par_v)
+        elif kind == "array.nested.too-few":
+            out = cip.Array(2, cip.Array(par_v, cip.DINT)).encode([[1], [1]])
         else:
             elt = getattr(cip, el)
             vals = (["x"] if el == "STRING" else [1]) * n
